@@ -1353,6 +1353,7 @@ TARGETS = [
     ("lib.rs", "impl LeanString", "from_utf16", "LeanString.from_utf16", True),
     ("lib.rs", "impl LeanString", "from_utf16_lossy", "LeanString.from_utf16_lossy", True),
     ("lib.rs", "impl LeanString", "from_utf8_unchecked", "LeanString.from_utf8_unchecked", True),
+    ("lib.rs", "impl Default for LeanString", "default", "LeanString.default", True),
     ("lib.rs", "impl From<char> for LeanString", "from", "LeanString.from_char_conv", True),
     ("lib.rs", "impl From<String> for LeanString", "from", "LeanString.from_string", True),
     ("lib.rs", "impl From<&String> for LeanString", "from", "LeanString.from_string_ref", True),
@@ -1419,7 +1420,7 @@ SIGS = {
     "LeanString.from_utf8": ([("buf", "ByteSlice")], "Rs Handle"), "LeanString.from_utf8_lossy": ([("buf", "ByteSlice")], "Handle"),
     "LeanString.from_utf16": ([("buf", "U16Slice")], "Rs Handle"),
     "LeanString.from_utf16_lossy": ([("buf", "U16Slice")], "Handle"),
-    "LeanString.from_utf8_unchecked": ([("buf", "ByteSlice")], "Handle"),
+    "LeanString.from_utf8_unchecked": ([("buf", "ByteSlice")], "Handle"), "LeanString.default": ([], "Handle"),
     "LeanString.from_char_conv": ([("value", "Chr")], "Handle"), "LeanString.from_string": ([("value", "Str")], "Handle"),
     "LeanString.from_string_ref": ([("value", "Str")], "Handle"), "LeanString.from_box": ([("value", "Str")], "Handle"),
     "LeanString.from_ls_ref": ([("value", "Handle")], "Handle"), "LeanString.from_str_trait": ([("s", "Str")], "Rs Handle"),
